@@ -459,6 +459,36 @@ def drive_sink(payload: dict) -> dict:
     return {'c': k, 'a': a}
 
 
+def drive_second(payload: dict) -> dict:
+    """Enforcing consumer, TLS provider with an alternative host name; the numeric address does not answer TLS."""
+    from verif.c19_helpers import ALT_HOST, IP, TlsPair
+    k = payload['c']
+    a = {'exc': '', 'events': []}
+    cfg = {'ptls': 'on', 'ctls': 'enforced', 'psrv': k['psrv'], 'csrv': 'shared', 'alt': 'set', 'peer': 'yes', 'mgr': k['mgr']}
+    tp = TlsPair(cfg)
+    try:
+        tp.provider.publish()
+        port = tp.provider.get_xaddrs()[0].split('//')[1].split('/')[0].split(':')[1]
+        tp.net.hostile_netlocs.add(f'{IP}:{port}')      # the same server, reached under its numeric address
+        tp.mk_consumer()
+        n0 = len(tp.net.events)
+        try:
+            tp.start_consumer()
+        except Exception as ex:  # noqa: BLE001  an enforcing consumer may (must) give up
+            a['gave_up'] = type(ex).__name__
+        for e in tp.net.events[n0:]:
+            if e['party'] == 'consumer':
+                a['events'].append({'ev': e['ev'], 'second': e['netloc'].startswith(IP + ':'), 'ctx': e['ctx'],
+                                    'out': e['out'], 'alt': e['netloc'].startswith(ALT_HOST + ':')})
+    except MachineryError:
+        raise
+    except Exception as ex:  # noqa: BLE001
+        a['exc'] = f'{type(ex).__name__}: {ex}'[:200]
+    finally:
+        tp.close()
+    return {'c': k, 'a': a}
+
+
 # --------------------------------------------------------------------------- TLC side
 ACTIONS = ['ConnectTls', 'ConnectPlain', 'Fallback', 'ConnectFails', 'Hosted', 'Subscribe', 'Probe',
            'NotifyDelivered', 'NotifyFails', 'Renew', 'Operate', 'Unsubscribe', 'StopWithEnd', 'StopSilent', 'Retry', 'RestartHostile']
@@ -473,10 +503,10 @@ def cases_of(run, cfg: str, n_cfg: int):
         if key not in seen:
             seen.add(key)
             out.append(p)
-    kinds = {k: [p for p in out if p['c']['kind'] == k] for k in ('cfg', 'cert', 'client', 'sink')}
+    kinds = {k: [p for p in out if p['c']['kind'] == k] for k in ('cfg', 'cert', 'client', 'sink', 'second')}
     sizes = {k: len(v) for k, v in kinds.items()}
-    if sizes != {'cfg': n_cfg, 'cert': 8, 'client': 4, 'sink': 24}:
-        raise MachineryError(f'{cfg}: TLC enumerated {sizes}, expected cfg={n_cfg} cert=8 client=4 sink=24')
+    if sizes != {'cfg': n_cfg, 'cert': 8, 'client': 4, 'sink': 24, 'second': 8}:
+        raise MachineryError(f'{cfg}: TLC enumerated {sizes}, expected cfg={n_cfg} cert=8 client=4 sink=24 second=8')
     if res.distinct < len(out):
         raise MachineryError(f'{cfg}: {res.distinct} states for {len(out)} cases')
     return kinds
@@ -534,6 +564,11 @@ def judge(run, traces: list[list[dict]], payloads: list[dict]):
         elif kind == 'cert':
             descr = {'check': 'certloader', 'clause': clause, 'entry': c['entry'], 'ca': c['ca']}
             what = f'certloader case {c}: clause {clause} fails, actual {rec["a"]}'
+        elif kind == 'second':
+            descr = {'check': 'second', 'clause': clause, 'mgr': c['mgr'], 'psrv': c['psrv']}
+            bad = [x for x in rec['a']['events'] if x['ctx'] != 'consumer.client']
+            what = (f'enforcing consumer, second network location of the provider does not answer TLS {c}: clause '
+                    f'{clause} fails: {bad[:3]} {rec["a"]["exc"]}')
         elif kind == 'sink':
             descr = {'check': 'sink', 'clause': clause, 'mgr': c['mgr'], 'notify': c['notify'], 'endto': c['endto']}
             bad = [x for x in rec['a']['contacts'] if not (x['tls'] and x['ctx'])]
@@ -561,6 +596,8 @@ def drive(payload: dict) -> tuple[list[dict], int]:
         return drive_cfg(payload)
     if kind == 'sink':
         return [{'phase': 'init', **drive_sink(payload)}], 3
+    if kind == 'second':
+        return [{'phase': 'init', **drive_second(payload)}], 3
     rec = drive_cert(payload) if kind == 'cert' else drive_client(payload)
     return [{'phase': 'init', **rec}], (10 if kind == 'cert' else 1)
 
@@ -583,7 +620,7 @@ def check(run, replay_path=None):
     kinds = cases_of(run, run.pick('Tls.cfg', 'Tls_thorough.cfg'), n_cfg)
     # second traces: a session that is restarted after the environment has turned hostile
     restarts = [dict(p, restart=True) for p in kinds['cfg'] if p['c']['peer'] == 'yes' and p['mode'] in ('tls', 'plain')]
-    payloads = kinds['cert'] + kinds['client'] + kinds['sink'] + kinds['cfg'] + restarts
+    payloads = kinds['cert'] + kinds['client'] + kinds['sink'] + kinds['second'] + kinds['cfg'] + restarts
     traces, calls = [], 0
     t0 = time.time()
     for p in payloads:
@@ -623,7 +660,7 @@ def check(run, replay_path=None):
     run.note('session_stats', stats)
     if malformed:
         run.note('observation_malformed_addresses_not_judged_by_C19', sorted(malformed)[:4])
-    for k in ('cfg', 'cert', 'client', 'sink'):
+    for k in ('cfg', 'cert', 'client', 'sink', 'second'):
         run.count(f'rejected_clauses_{k}', 0)
     for p, t in zip(payloads, traces):
         c = p['c']
